@@ -95,6 +95,8 @@ def build(unit, repo=None, out_dir=None, canary=False):
         s, en = X.find_item(src, "fn", e["name"], within=e.get("within"))
         text = src[s:en]
         c = dict(e)
+        if e.get("implheader") and " for " in e["implheader"]:
+            c["in_trait_impl"] = True
         if canary:
             c = dict(e)
             c["ensures"] = list(e["ensures"]) + [("__canary", "false")]
@@ -104,7 +106,7 @@ def build(unit, repo=None, out_dir=None, canary=False):
             wrap_open = e.get("impl_header", "")
         functions.append({"name": e["name"], "src": e["src"], "bytes": [s, en], "sha256": X.sha(text), "rewrites": rep,
                           "props": e["props"], "ensures": [n for n, _ in c["ensures"]], "ensures_props": e["ensures_props"],
-                          "loops": sorted(e["loops"].keys()), "text": new, "within": e.get("within"), "canary_mode": e.get("canary", ""), "stub": e.get("stub")})
+                          "loops": sorted(e["loops"].keys()), "text": new, "within": e.get("within"), "canary_mode": e.get("canary", ""), "stub": e.get("stub"), "implheader": e.get("implheader")})
     meta = {"unit": unit, "items": items, "functions": functions, "preamble": pre, "canary": canary}
     return meta
 
@@ -118,15 +120,13 @@ def emit(meta, gen_path, wrap_impls=None):
     groups = {}
     order = []
     for f in meta["functions"]:
-        key = f.get("within") or ""
+        key = f.get("implheader") or ""
         if key not in groups:
             groups[key] = []; order.append(key)
         groups[key].append(f)
     for key in order:
         if key:
-            hdr = (wrap_impls or {}).get(key)
-            if hdr is None:
-                raise X.ExtractError(f"no impl header configured for {key!r}")
+            hdr = key
             text += hdr + " {\n"; cur_line += hdr.count("\n") + 1
         for f in groups[key]:
             head = f"// ---- {f['src']}::{f['name']} sha256={f['sha256'][:16]} ----\n"
